@@ -20,12 +20,15 @@ from .core import Obligation, State, Val
 SOLVERS = {
     "z3-5.1": ["z3-new", "-smt2"],
     "z3-5.1/ematch": ["z3-new", "-smt2", "smt.mbqi=false", "smt.random_seed=7"],
+    # without the array extensionality axioms: a strictly weaker prover, so its `unsat` is as good as any other; its
+    # `sat` may be spurious and is ignored.  Proves set-valued-dict obligations in milliseconds that the others lose.
+    "z3-5.1/noext": ["z3-new", "-smt2", "smt.array.extensional=false"],
     "z3-5.1/arith2": ["z3-new", "-smt2", "smt.arith.solver=2"],
     "z3-4.8": ["/usr/bin/z3", "-smt2"],
     "z3-4.8/ematch": ["/usr/bin/z3", "-smt2", "smt.mbqi=false"],
     "cvc5": ["/usr/bin/cvc5", "--lang=smt2", "--strings-exp", "--arrays-exp"],
 }
-PORTFOLIO = ("z3-5.1", "cvc5", "z3-5.1/ematch", "z3-4.8", "z3-5.1/arith2", "z3-4.8/ematch")
+PORTFOLIO = ("z3-5.1", "cvc5", "z3-5.1/noext", "z3-5.1/ematch", "z3-4.8", "z3-5.1/arith2", "z3-4.8/ematch")
 
 # Confirmation step.  z3 (both installed versions) has answered `unsat` on satisfiable files that combine the dict
 # well-formedness quantifier, a datatype and seq.extract (selftest/solver_regress/z3_seq_extract.smt2: E-matching
@@ -350,6 +353,8 @@ def solve_file(res: Result, timeout=10.0, portfolio=PORTFOLIO, confirm_unsat=Tru
             if rnd > 0 and any(a["solver"] == solver and a["status"] in ("unknown", "error") for a in res.attempts):
                 continue  # a definite 'unknown' will not change with more time
             st, out, dt = run_solver(solver, path, tmo)
+            if st == "sat" and solver.endswith("/noext"):
+                st = "unknown"  # a model found without extensionality proves nothing
             res.attempts.append({"solver": solver, "status": st, "time_s": round(dt, 3), "limit_s": tmo})
             res.time_s += dt
             if st == "unsat":
